@@ -5,6 +5,7 @@
 -/
 import Fsel.Model.Walk
 import Fsel.Lemmas.Criteria
+import Fsel.Lemmas.Num
 
 namespace Fsel
 namespace CellL
@@ -90,6 +91,239 @@ theorem cellCmp_swap (x y : Str) : cellCmp y x = oswap (cellCmp x y) := by
 theorem cellCmp_refl (x : Str) : cellCmp x x = .eq := by
   have h := cellCmp_swap x x
   cases hc : cellCmp x x <;> rw [hc] at h <;> simp [oswap] at h
+
+/-! ### transitivity: every comparison that is "the order of a key", and lexicographic combinations of such -/
+
+/-- a comparison that behaves like the order of a key: mirror-symmetric, and `<` / `=` compose -/
+structure IsOrd {α : Type} (c : α → α → Ordering) : Prop where
+  swap : ∀ x y, c y x = oswap (c x y)
+  lt_lt : ∀ x y z, c x y = .lt → c y z = .lt → c x z = .lt
+  eq_eq : ∀ x y z, c x y = .eq → c y z = .eq → c x z = .eq
+  eq_lt : ∀ x y z, c x y = .eq → c y z = .lt → c x z = .lt
+  lt_eq : ∀ x y z, c x y = .lt → c y z = .eq → c x z = .lt
+
+/-- first `c1`, and `c2` where `c1` ties -/
+def lex2 {α : Type} (c1 c2 : α → α → Ordering) (x y : α) : Ordering :=
+  if c1 x y != .eq then c1 x y else c2 x y
+
+theorem lex2_eq {α : Type} (c1 c2 : α → α → Ordering) (x y : α) :
+    lex2 c1 c2 x y = match c1 x y with | .eq => c2 x y | o => o := by
+  unfold lex2; cases c1 x y <;> rfl
+
+theorem isOrd_lex2 {α : Type} (c1 c2 : α → α → Ordering) (h1 : IsOrd c1) (h2 : IsOrd c2) : IsOrd (lex2 c1 c2) := by
+  constructor
+  · intro x y
+    simp only [lex2_eq, h1.swap x y]
+    cases c1 x y <;> simp only [oswap]
+    exact h2.swap x y
+  all_goals
+    intro x y z hxy hyz
+    simp only [lex2_eq] at hxy hyz ⊢
+    cases e1 : c1 x y <;> cases e2 : c1 y z <;> rw [e1] at hxy <;> rw [e2] at hyz <;> simp only at hxy hyz <;>
+      first
+        | contradiction
+        | (have := h1.lt_lt x y z e1 e2; rw [this])
+        | (have := h1.eq_eq x y z e1 e2; rw [this]; simp only
+           first
+             | exact h2.lt_lt x y z hxy hyz
+             | exact h2.eq_eq x y z hxy hyz
+             | exact h2.eq_lt x y z hxy hyz
+             | exact h2.lt_eq x y z hxy hyz)
+        | (have := h1.eq_lt x y z e1 e2; rw [this])
+        | (have := h1.lt_eq x y z e1 e2; rw [this])
+
+/-- the order of a key under a comparison that is itself an order -/
+theorem isOrd_comap {α β : Type} (c : β → β → Ordering) (f : α → β) (h : IsOrd c) : IsOrd (fun x y => c (f x) (f y)) :=
+  ⟨fun x y => h.swap _ _, fun x y z => h.lt_lt _ _ _, fun x y z => h.eq_eq _ _ _, fun x y z => h.eq_lt _ _ _, fun x y z => h.lt_eq _ _ _⟩
+
+def intOrdC (m n : Int) : Ordering := ordOfBool (m < n) (m == n)
+
+theorem isOrd_int : IsOrd intOrdC := by
+  have val : ∀ m n : Int, (intOrdC m n = .lt ↔ m < n) ∧ (intOrdC m n = .eq ↔ m = n) := by
+    intro m n
+    unfold intOrdC ordOfBool
+    by_cases h1 : m < n
+    · have : m ≠ n := by omega
+      simp [h1, this]
+    · by_cases h2 : m = n
+      · simp [h2]
+      · simp [h1, h2]
+  constructor
+  · intro x y; exact intCmp_swap x y
+  · intro x y z a b; rw [(val x z).1]; have := (val x y).1.mp a; have := (val y z).1.mp b; omega
+  · intro x y z a b; rw [(val x z).2]; have := (val x y).2.mp a; have := (val y z).2.mp b; omega
+  · intro x y z a b; rw [(val x z).1]; have := (val x y).2.mp a; have := (val y z).1.mp b; omega
+  · intro x y z a b; rw [(val x z).1]; have := (val x y).1.mp a; have := (val y z).2.mp b; omega
+
+/-- `Option Int` with `none` last -/
+def optIntC : Option Int → Option Int → Ordering
+  | some m, some n => intOrdC m n
+  | some _, none => .lt
+  | none, some _ => .gt
+  | none, none => .eq
+
+theorem isOrd_optInt : IsOrd optIntC := by
+  constructor
+  · intro x y; cases x <;> cases y <;> simp only [optIntC, oswap]; exact isOrd_int.swap _ _
+  all_goals
+    intro x y z a b
+    cases x <;> cases y <;> cases z <;> simp only [optIntC] at a b ⊢ <;>
+      first
+        | contradiction
+        | rfl
+        | exact isOrd_int.lt_lt _ _ _ a b
+        | exact isOrd_int.eq_eq _ _ _ a b
+        | exact isOrd_int.eq_lt _ _ _ a b
+        | exact isOrd_int.lt_eq _ _ _ a b
+
+theorem intKeyCmp_eq (x y : Str) : intKeyCmp x y = optIntC (parseI64? x) (parseI64? y) := by
+  unfold intKeyCmp
+  cases parseI64? x <;> cases parseI64? y <;> rfl
+
+theorem isOrd_text : IsOrd cmpText := by
+  have val : ∀ x y : Str, (cmpText x y = .lt ↔ (strLe x y = true ∧ x ≠ y)) ∧ (cmpText x y = .eq ↔ x = y) := by
+    intro x y
+    unfold cmpText ordOfBool strLt
+    by_cases hxy : x = y
+    · subst hxy; simp
+    · have hb : (x != y) = true := by simp [hxy]
+      have hne : (x == y) = false := by simp [hxy]
+      cases h : strLe x y <;> simp [hb, hne, hxy]
+  constructor
+  · exact cmpText_swap
+  · intro x y z a b
+    obtain ⟨a1, a2⟩ := (val x y).1.mp a
+    obtain ⟨b1, b2⟩ := (val y z).1.mp b
+    rw [(val x z).1]
+    refine ⟨strLe_trans x y z a1 b1, ?_⟩
+    intro h; subst h
+    exact a2 (strLe_antisymm x y a1 b1)
+  · intro x y z a b
+    rw [(val x z).2]; rw [(val x y).2.mp a, (val y z).2.mp b]
+  · intro x y z a b
+    have := (val x y).2.mp a; subst this; exact b
+  · intro x y z a b
+    have := (val y z).2.mp b; subst this; exact a
+
+def ratC (a b : Rat) : Ordering := if a < b then .lt else if a == b then .eq else .gt
+
+theorem rat_lt_trans {a b c : Rat} (h1 : a < b) (h2 : b < c) : a < c := by
+  have hle : a ≤ c := Rat.le_trans (Rat.le_of_lt h1) (Rat.le_of_lt h2)
+  refine Rat.lt_of_le_of_ne hle ?_
+  intro h; subst h
+  exact absurd (Rat.le_antisymm (Rat.le_of_lt h1) (Rat.le_of_lt h2)) (by intro h; subst h; exact Rat.lt_irrefl h1)
+
+theorem isOrd_rat : IsOrd ratC := by
+  have val : ∀ a b : Rat, (ratC a b = .lt ↔ a < b) ∧ (ratC a b = .eq ↔ a = b) := by
+    intro a b
+    unfold ratC
+    by_cases h1 : a < b
+    · have : a ≠ b := by intro h; subst h; exact Rat.lt_irrefl h1
+      simp [h1, this]
+    · by_cases h2 : a = b
+      · subst h2; simp [Rat.lt_irrefl]
+      · simp [h1, h2]
+  have sw : ∀ a b : Rat, ratC b a = oswap (ratC a b) := by
+    intro a b
+    unfold ratC
+    by_cases h1 : a < b
+    · have h2 : ¬ b < a := Rat.not_lt.mpr (Rat.le_of_lt h1)
+      have h3 : (b == a) = false := by
+        simp only [beq_eq_false_iff_ne, ne_eq]; intro h; subst h; exact absurd h1 Rat.lt_irrefl
+      simp [h1, h2, h3, oswap]
+    · by_cases h2 : a = b
+      · subst h2; simp [Rat.lt_irrefl, oswap]
+      · have h3 : b < a := Rat.lt_of_le_of_ne (Rat.not_lt.mp h1) (Ne.symm h2)
+        have h4 : (a == b) = false := by simp [h2]
+        simp [h1, h3, h4, oswap]
+  constructor
+  · exact sw
+  · intro x y z a b; rw [(val x z).1]; exact rat_lt_trans ((val x y).1.mp a) ((val y z).1.mp b)
+  · intro x y z a b; rw [(val x z).2]; rw [(val x y).2.mp a, (val y z).2.mp b]
+  · intro x y z a b; have := (val x y).2.mp a; subst this; exact b
+  · intro x y z a b; have := (val y z).2.mp b; subst this; exact a
+
+theorem numTotalCmp_fin (a b : Rat) (e1 e2 : Bool) : numTotalCmp (.fin a e1) (.fin b e2) = ratC a b := rfl
+
+theorem isOrd_num : IsOrd numTotalCmp := by
+  constructor
+  · exact fun u v => numTotalCmp_swap u v
+  all_goals
+    intro x y z a b
+    cases x <;> cases y <;> cases z <;>
+      first
+        | (simp only [numTotalCmp_fin] at a b ⊢
+           first
+             | exact isOrd_rat.lt_lt _ _ _ a b
+             | exact isOrd_rat.eq_eq _ _ _ a b
+             | exact isOrd_rat.eq_lt _ _ _ a b
+             | exact isOrd_rat.lt_eq _ _ _ a b)
+        | (simp only [numTotalCmp] at a b ⊢ <;> first | contradiction | rfl)
+
+/-- numbers (`true`) before everything else -/
+def clsB : Bool → Bool → Ordering
+  | true, false => .lt
+  | false, true => .gt
+  | _, _ => .eq
+
+theorem isOrd_clsB : IsOrd clsB := by
+  constructor
+  · intro x y; cases x <;> cases y <;> rfl
+  all_goals
+    intro x y z a b
+    cases x <;> cases y <;> cases z <;> simp only [clsB] at a b ⊢ <;> first | contradiction | rfl
+
+/-- the key of a cell: is it a number, which one, which integer, which text -/
+def clsC (x y : Str) : Ordering := clsB (parseF64? x).isSome (parseF64? y).isSome
+
+theorem isOrd_cls : IsOrd clsC := isOrd_comap clsB (fun x => (parseF64? x).isSome) isOrd_clsB
+
+def numKey (x : Str) : Num := (parseF64? x).getD .nan
+
+/-- `cellCmp` is the lexicographic order of (class, number, integer spelling, text) -/
+theorem cellCmp_eq_lex (hI : ∀ x : Str, parseF64? x = none → parseI64? x = none) (x y : Str) :
+    cellCmp x y = lex2 clsC (lex2 (fun a b => numTotalCmp (numKey a) (numKey b)) (lex2 intKeyCmp cmpText)) x y := by
+  unfold cellCmp
+  simp only [lex2_eq, clsC, numKey]
+  cases hx : parseF64? x <;> cases hy : parseF64? y <;> simp only [Option.isSome, Option.getD, clsB]
+  · -- two texts: no number, no integer
+    have h1 : numTotalCmp Num.nan Num.nan = .eq := rfl
+    rw [h1]
+    simp only [intKeyCmp, hI x hx, hI y hy]
+  · rename_i u v
+    cases hn : numTotalCmp u v <;> simp only [bne_self_eq_false, Bool.false_eq_true, if_false] <;>
+      first
+        | rfl
+        | (cases hi : intKeyCmp x y <;> simp)
+
+/-- **ORDER BY over group rows compares cells by a total order** (given that a text which is no float literal is no
+    integer literal either — true of the two Rust parsers; decided for the model's by the correspondence): the
+    comparison is transitive in all four `<`/`=` combinations and mirror-symmetric, for every mix of numbers and text -/
+theorem isOrd_cellCmp (hI : ∀ x : Str, parseF64? x = none → parseI64? x = none) : IsOrd cellCmp := by
+  have hlex : IsOrd (lex2 clsC (lex2 (fun a b => numTotalCmp (numKey a) (numKey b)) (lex2 intKeyCmp cmpText))) := by
+    refine isOrd_lex2 _ _ isOrd_cls (isOrd_lex2 _ _ (isOrd_comap numTotalCmp numKey isOrd_num) (isOrd_lex2 _ _ ?_ isOrd_text))
+    have : intKeyCmp = fun a b => optIntC (parseI64? a) (parseI64? b) := by
+      funext a b; exact intKeyCmp_eq a b
+    rw [this]
+    exact isOrd_comap optIntC parseI64? isOrd_optInt
+  have heq : cellCmp = lex2 clsC (lex2 (fun a b => numTotalCmp (numKey a) (numKey b)) (lex2 intKeyCmp cmpText)) := by
+    funext x y; exact cellCmp_eq_lex hI x y
+  rw [heq]; exact hlex
+
+/-- … unconditionally: the model's integer parser accepts nothing its float parser rejects -/
+theorem cellCmp_isOrd : IsOrd cellCmp := isOrd_cellCmp NumL.parseF64_none_parseI64_none
+
+/-- a comparison of rows by several keys, each in its own direction, built from an order of the cells, is an order
+    of the rows whenever … it is what `groupedCmp` computes: here its transitivity for `≤` on one key -/
+theorem cellCmp_le_trans (x y z : Str) (h1 : cellCmp x y ≠ .gt) (h2 : cellCmp y z ≠ .gt) : cellCmp x z ≠ .gt := by
+  have o := cellCmp_isOrd
+  cases a : cellCmp x y <;> cases b : cellCmp y z <;> first
+    | exact absurd a h1
+    | exact absurd b h2
+    | (rw [o.lt_lt x y z a b]; decide)
+    | (rw [o.lt_eq x y z a b]; decide)
+    | (rw [o.eq_lt x y z a b]; decide)
+    | (rw [o.eq_eq x y z a b]; decide)
 
 end CellL
 end Fsel
